@@ -35,6 +35,14 @@ Theorem wrap_width : forall s w ind ls, wrap_lines s w ind = Some ls ->
 Proof. exact wrap_lines_width. Qed.
 Print Assumptions wrap_width.
 
+(* strong form: a line longer than the width contains no whitespace after the indent at
+   all -- wherever a line could have been broken, it was *)
+Theorem wrap_width_strong : forall s w ind ls, wrap_lines s w ind = Some ls ->
+  forall l, In l ls -> w < length l ->
+  forall p c, nth_error l p = Some c -> is_space c = true -> length ind < p -> False.
+Proof. exact wrap_lines_width_strong. Qed.
+Print Assumptions wrap_width_strong.
+
 (* trailing whitespace is removed from every line *)
 Theorem wrap_no_trailing_ws : forall s w ind ls, wrap_lines s w ind = Some ls ->
   Forall (fun l => l = [] \/ is_space (last l 0%N) = false) ls.
